@@ -722,6 +722,11 @@ impl<'a> WriteTxn<'a> {
         self.memtable.tombstone_node(node);
     }
 
+    /// True when `node` was deleted earlier in this transaction.
+    pub fn is_node_tombstoned_in_txn(&self, node: InternalNodeId) -> bool {
+        self.memtable.is_node_tombstoned(node)
+    }
+
     pub fn tombstone_edge(&mut self, src: InternalNodeId, rel: RelTypeId, dst: InternalNodeId) {
         self.memtable.tombstone_edge(src, rel, dst);
     }
